@@ -103,8 +103,24 @@ def trial_c08opt(inputs, output, size_dict, pseed=0):
     return ContractionTree.from_path(inputs, output, size_dict, path=path)
 
 
+_ABORT = {"calls": 0, "at": None, "lock": threading.Lock()}
+
+
+def trial_c08abort(inputs, output, size_dict, pseed=0):
+    """deterministic like c08det, but the call whose process-wide number is _ABORT['at'] raises
+    (used with on_trial_error='raise' to abort a search part-way)"""
+    with _ABORT["lock"]:
+        n = _ABORT["calls"]
+        _ABORT["calls"] += 1
+    if n == _ABORT["at"]:
+        raise RuntimeError("c08: injected trial failure")
+    return trial_c08det(inputs, output, size_dict, pseed)
+
+
 def register_methods():
     from cotengra.hyperoptimizers import hyper
+    if "c08abort" not in hyper._PATH_FNS:
+        hyper.register_hyper_function("c08abort", trial_c08abort, {"pseed": {"type": "INT", "min": 0, "max": 10 ** 6}})
     if "c08det" not in hyper._PATH_FNS:
         sp = {"pseed": {"type": "INT", "min": 0, "max": 10 ** 6}}
         hyper.register_hyper_function("c08det", trial_c08det, sp)
@@ -212,9 +228,19 @@ class ScriptedPool:
         self.problems = []
         self.on_execute = None
         self.nsub_at_take = []
+        self.marks = []
 
     def inflight(self):
-        return [f.k for f in self.futs if not f.taken and not f.cancelled]
+        return [f.k for f in self.futs if not f.taken and not f.cancelled and not getattr(f, "abandoned", False)]
+
+    def new_search(self):
+        """a new search() starts: whatever an earlier (aborted) search left un-harvested is not
+        part of this search; remember where this search's part of the logs begins"""
+        for f in self.futs:
+            if not f.taken and not f.cancelled:
+                f.abandoned = True
+        self.marks.append((len(self.taken_order), len(self.futs)))
+        self.cur = None
 
     def submit(self, fn, *args, **kwargs):
         k = len(self.futs)
@@ -237,7 +263,11 @@ class ScriptedPool:
             self.cur = (ids, [r <= lo + sl for r in rk])
         ids, flags = self.cur
         if k not in ids:
-            self.problems.append("done() asked of future %d which is not in flight" % k)
+            f = self.futs[k]
+            if getattr(f, "abandoned", False):
+                self.problems.append("the search polls future %d, which an earlier aborted search() submitted" % k)
+            else:
+                self.problems.append("done() asked of future %d which is not in flight" % k)
             return True
         return flags[ids.index(k)]
 
@@ -518,7 +548,13 @@ def run_case(spec):
                 asks.append(s)
                 return s
 
+            rep_state = {"n": 0, "at": None}
+
             def report_result(self, setting, trial, score):
+                n = rep_state["n"]
+                rep_state["n"] += 1
+                if n == rep_state["at"]:
+                    raise RuntimeError("c08: injected failure in the reporting path")
                 reports.append((setting, score))
                 return r0(self, setting, trial, score)
             opt._optimizer["get_setting"] = get_setting
@@ -550,20 +586,53 @@ def run_case(spec):
                     return rec_fn, args
                 opt.setup = setup
 
-            for si in range(spec.get("nsearch", 1)):
+            history = spec.get("history")
+            for si in range(len(history) if history else spec.get("nsearch", 1)):
+                plan = history[si] if history else None
+                # let what an aborted search left on a real pool finish before the next search
+                for _, fut in list(getattr(opt, "_futures", None) or []):
+                    if not isinstance(fut, ScriptedFuture):
+                        try:
+                            fut.result()
+                        except Exception:
+                            pass
+                _ABORT["at"] = rep_state["at"] = None
+                if plan and plan.startswith("trial:"):
+                    _ABORT["at"] = _ABORT["calls"] + int(plan.split(":")[1])
+                if plan and plan.startswith("report:"):
+                    rep_state["at"] = rep_state["n"] + int(plan.split(":")[1])
+                if pool is not None:
+                    pool.new_search()
                 before = len(opt.scores)
                 nasks0 = len(asks)
-                sr = {"exc": None}
+                sr = {"exc": None, "plan": plan, "before": before, "asks0": nasks0}
                 try:
                     tree = opt.search(inputs, output, size_dict)
                     sr["tree"] = tree
                 except Exception as e:
                     sr["exc"] = "%s: %s" % (type(e).__name__, str(e)[:200])
                     sr["tree"] = None
+                _ABORT["at"] = rep_state["at"] = None
                 sr["nreported"] = len(opt.scores) - before
                 sr["nasks"] = len(asks) - nasks0
+                pend = list(getattr(opt, "_futures", None) or [])
+                sr["npending"] = len(pend)
+                sr["pending"] = [fut.k for _, fut in pend if isinstance(fut, ScriptedFuture)]
+                if sr["tree"] is not None:
+                    # the property at the end of THIS search (later searches change opt.best)
+                    fin = [x for x in opt.scores if x == x and x != INF]
+                    sr["best_is_min"] = bool(fin) and opt.best.get("score") == min(fin)
+                    sr["ret_is_best"] = sr["tree"] is opt.best.get("tree")
+                    sr["best_fig"] = {k: ckey(opt.best.get(k)) for k in ("flops", "write", "size")}
+                    sr["tree_ok"] = ([tuple(t) for t in tree.inputs] == inputs and tuple(tree.output) == output
+                                     and tree.N == len(inputs) and oracle.tree_is_complete(tree))
+                    if not spec.get("compressed"):
+                        try:
+                            sr["rebuilt"] = rebuilt_stats(tree, inputs, output, size_dict)[0]
+                        except Exception as e:
+                            sr["rebuilt"] = repr(e)
                 searches.append(sr)
-                if sr["exc"]:
+                if sr["exc"] and not history:
                     break
         obs["warnings"] = sorted({str(w.message)[:120] for w in wlist})[:5]
     finally:
@@ -610,6 +679,7 @@ def run_case(spec):
         obs["best"]["params_cands"] = cands
     obs["trials"] = [{k: v for k, v in t.items() if k != "tree_obj"} for t in log]
     if pool is not None:
+        obs["pool_marks"] = pool.marks
         obs["pool"] = {"taken": pool.taken_order, "flags": pool.flags_log, "positions": pool.positions,
                        "cancelled": pool.cancelled, "nsub": len(pool.futs), "nsub_at_take": pool.nsub_at_take}
         obs["problems"] += pool.problems
@@ -619,6 +689,32 @@ def run_case(spec):
 
     # ------------------------------------------------------------- oracle (property text)
     P = obs["problems"]
+    if spec.get("history"):
+        # every search() of a history on one optimizer object, also after an aborted one
+        for si, sr in enumerate(searches):
+            lo, hi = sr["before"], sr["before"] + sr["nreported"]
+            a0, a1 = sr["asks0"], sr["asks0"] + sr["nasks"]
+            foreign = [j for j in obs["params"][lo:hi] if not (a0 <= j < a1)]
+            if foreign:
+                P.append("search %d recorded trials it did not launch (settings asked as numbers %r; this search asked %d..%d)" % (
+                    si, foreign, a0, a1 - 1))
+            if sr["nreported"] > spec["max_repeats"]:
+                P.append("search %d recorded %d trials, max_repeats=%d" % (si, sr["nreported"], spec["max_repeats"]))
+            if sr["exc"] is None and spec.get("max_time") is None and sr["nreported"] != spec["max_repeats"]:
+                P.append("search %d completed with %d recorded trials, max_repeats=%d" % (si, sr["nreported"], spec["max_repeats"]))
+            if sr["exc"] is None and sr["npending"]:
+                P.append("search %d completed but left %d futures in the optimizer" % (si, sr["npending"]))
+            if sr.get("tree") is not None:
+                if not sr["tree_ok"]:
+                    P.append("search %d returned a tree that is not a complete tree of the queried contraction" % si)
+                if not sr["best_is_min"] or not sr["ret_is_best"]:
+                    P.append("search %d: best is not the minimum of the recorded scores / not the returned tree" % si)
+                if not spec.get("compressed") and sr["best_fig"] != sr["rebuilt"]:
+                    P.append("search %d: recorded best costs %r, the returned tree rebuilt from scratch has %r" % (
+                        si, sr["best_fig"], sr["rebuilt"]))
+            if sr["exc"] is not None and not (sr["plan"] and "c08: injected" in sr["exc"]):
+                if not sr["exc"].startswith("KeyError: 'tree'"):
+                    P.append("search %d raised %s (plan %r)" % (si, sr["exc"], sr["plan"]))
     last = searches[-1] if searches else {"exc": "no search", "tree": None}
     ret = last["tree"]
     if ret is not None:
@@ -1146,7 +1242,10 @@ def judge(ctx, spec, obs, label):
             ctx.fail("a tree was returned although no trial scored below inf", rec)
             ok = False
         else:
-            if b["score"] != obs["scores"][i] or obs["best_score"] != obs["scores"][i]:
+            # (opt.best_score is internal: an exception thrown by the library's report_result leaves it
+            #  updated although nothing was recorded -- not judged in such histories)
+            rp = any(pl and pl.startswith("report:") for pl in (spec.get("history") or []))
+            if b["score"] != obs["scores"][i] or (obs["best_score"] != obs["scores"][i] and not rp):
                 ctx.fail("best score %r / %r is not the minimum recorded score %r" % (
                     b["score"], obs["best_score"], obs["scores"][i]), rec)
                 ok = False
@@ -1289,6 +1388,24 @@ def run(ctx):
                         add("compressed:%s:chi=%s:d=%d(%s)" % (base_obj, chi, d, "%d->%d" % order), sp)
                         grp.append(len(specs) - 1)
                     groups.append(grp)
+    # histories on ONE optimizer object: searches aborted part-way (a raising trial under
+    # on_trial_error='raise', an exception in the reporting path) followed by further searches
+    plans = [["trial:2", None], ["trial:0", None], ["trial:1", "trial:3", None], [None, "trial:2", None],
+             ["report:1", None], ["report:0", "trial:1", None], ["trial:3", None, None], ["trial:4", None]]
+    for i in range(ctx.n(48, 400)):
+        mode = ["scripted", "serial", "scripted", "thread"][i % 4]
+        n = rng.randint(5, 9)
+        ranks = list(range(n))
+        rng.shuffle(ranks)
+        ins, out, sd = rand_network(rng, gen)
+        sp = {"inputs": ins, "output": out, "size_dict": sd, "mode": mode, "methods": rng.choice([["c08abort"], ["c08abort", "c08det"]]),
+              "minimize": rng.choice(["flops", "combo", "size"]), "opts": {}, "max_repeats": n, "optlib": "random",
+              "seed": rng.randrange(10 ** 6), "on_trial_error": "raise", "history": plans[(i // 4) % len(plans)],
+              "check_det": False, "ranks": ranks, "slack": [rng.choice([0, 0, 1, 3]) for _ in range(3)],
+              "pre_dispatch": rng.randint(2, 6), "workers": 1}
+        if rng.random() < 0.25:
+            sp["mts"] = rng.randint(1, 4)
+        add("history%d:%s:%s" % (i, mode, ",".join(str(x) for x in sp["history"])), sp)
     # real pools
     for i in range(ctx.n(8, 40)):
         sp = make_spec(rng, gen, mode="thread", methods=rng.choice([["c08det", "c08flaky"], ["c08det"], ["greedy", "c08flaky"]]),
@@ -1375,6 +1492,16 @@ def run(ctx):
             feats.add("compressed:maxdim=%d" % max(spec["size_dict"].values()))
         if spec.get("fn_probe"):
             feats.add("scoring_function_probe")
+        if spec.get("history"):
+            feats.add("history:" + spec["mode"])
+            for sr in obs["searches"]:
+                if sr["exc"] and "c08: injected" in sr["exc"]:
+                    ctx.count("history_aborted_search")
+                    if sr.get("npending"):
+                        ctx.count("history_abort_left_futures_pending")
+                elif not sr["exc"]:
+                    ctx.count("history_completed_search_after_abort" if any(
+                        x["exc"] for x in obs["searches"][:obs["searches"].index(sr)]) else "history_completed_search")
         for f in feats:
             ctx.count(f)
         ctx.case((label, json.dumps(spec, sort_keys=True)), nontrivial=len(obs["scores"]) >= 2,
@@ -1389,10 +1516,8 @@ def run(ctx):
             # where the tree the optimizer kept was reported (identity of the tree object)
             if instrumented and obs["best"]["has_tree"] and obs["best"]["tree"] is not None:
                 k = obs["best"]["tree"]
-                if spec["mode"] == "serial":
-                    pos = k
-                elif k in obs["pool"]["taken"]:
-                    pos = obs["pool"]["taken"].index(k)
+                if k in obs["params"]:          # row whose setting is ask number k = trial number k
+                    pos = obs["params"].index(k)
             elif instrumented and not obs["best"]["has_tree"]:
                 pos = None
             argmin_cases.append((label, "argmin_first %s" % lst(pyf_lit(s) for s in obs["scores"]),
@@ -1425,6 +1550,51 @@ def run(ctx):
                 ctx.count("pipeline_trials_compressed")
         # ---- the whole run through serial / par
         if not usable and not any(s["exc"] for s in obs["searches"]):
+            continue
+        if spec.get("history"):
+            # ---- a history of searches on ONE optimizer object, some of them aborted
+            if any(pl and pl.startswith("report:") for pl in spec["history"]):
+                ctx.count("history_report_abort(oracle only)")
+                continue
+            if obs["best"]["has_tree"] and "_params_ask" not in obs["best"]:
+                continue
+            gs, runf, mts = search_terms(spec, obs)
+            lets, want = "", []
+            prev, pend = "init_state", "[]"
+            parts = []
+            for si, sr in enumerate(obs["searches"]):
+                k0 = sr["asks0"]
+                crashed_i = bool(sr["exc"]) and "c08: injected" in sr["exc"]
+                if spec["mode"] == "serial":
+                    lets += "let r%d := serial nat %s %s %s NoStop %d%%nat %d%%nat 0%%nat %s [] in " % (
+                        si, mts, gs, runf, spec["max_repeats"], k0, prev)
+                    lets += "let p%d := @nil fut in " % si
+                    ids_i = obs["params"][sr["before"]:sr["before"] + sr["nreported"]]
+                    pend_i = []
+                else:
+                    t0i = obs["pool_marks"][si][0]
+                    t1i = obs["pool_marks"][si + 1][0] if si + 1 < len(obs["pool_marks"]) else len(obs["pool"]["taken"])
+                    flags = lst(lst("true" if b else "false" for b in fl) for _, fl in obs["pool"]["flags"][t0i:t1i])
+                    common = "nat %s %s %s NoStop %d%%nat (fun step _ => tbl %s [] step) true %s %d%%nat %d%%nat %s" % (
+                        mts, gs, runf, obs["pre_dispatch"], flags, pend, spec["max_repeats"], k0, prev)
+                    lets += "let r%d := par_search %s in let p%d := par_search_pending %s in " % (si, common, si, common)
+                    # a future whose result() raised was taken but is not reported
+                    ids_i = [j for j in obs["pool"]["taken"][t0i:t1i] if obs["trials"][j]["exc"] is None]
+                    pend_i = sr["pending"]
+                parts.append("(match fst (fst (fst r%d)) with Crashed => true | _ => false end, "
+                             "(map (@e_id nat) (snd (fst r%d)), (snd r%d, map fst p%d)))" % (si, si, si, si))
+                want.append("(%s, (%s, (%d%%nat, %s)))" % ("true" if crashed_i else "false", lst("%d%%nat" % j for j in ids_i),
+                                                          sr["asks0"] + sr["nasks"], lst("%d%%nat" % j for j in pend_i)))
+                prev, pend = "(snd (fst (fst r%d)))" % si, "p%d" % si
+            try:
+                want_state = observed_state(obs)
+            except Exception:
+                continue
+            lhs = "(%s (%s, observe %s))" % (lets, lst(parts), prev)
+            rhs = "(%s, %s)" % (lst(want), want_state)
+            search_cases.append((label, lhs, rhs))
+            search_recs.append({"spec": spec, "label": label, "obs": {k: obs.get(k) for k in ("scores", "best", "searches", "pool", "pool_marks", "asks")}})
+            ctx.count("search_replays_history")
             continue
         if spec.get("nsearch", 1) > 1 and spec["mode"] == "scripted":
             continue
